@@ -323,13 +323,23 @@ package py
 //@   ensures same: is(other, *List) ==> err == nil && is(r, *List) && r.(*List) == a
 //@   ensures len: is(other, *List) && other.(*List) != a ==> len(a.Items) == len(old(a.Items)) + len(old(other.(*List).Items))
 
+//@ spec repeatOK(m int, n int) bool = n <= 0 || m == 0 || n <= 1099511627776 / m
+
+// repetition: the item count is computed without overflow; a result that could not be allocated is a MemoryError
+//@ func repeatLen(m, n) (r, err)
+//@   requires nonneg: 0 <= m && m <= 1099511627776
+//@   ensures zero: (n <= 0 || m == 0) ==> err == nil && r == 0
+//@   ensures ok: n > 0 && m > 0 && n <= 1099511627776 / m ==> err == nil && r == n * m && 0 < r && r <= 1099511627776
+//@   ensures toolong: n > 0 && m > 0 && n > 1099511627776 / m ==> raisesExc(err, MemoryError)
+
 //@ func (*List).M__mul__(l, other) (r, err)
 //@   ensures ni: !isSmallInt(other) ==> r == NotImplemented && err == nil
-//@   ensures shape: isSmallInt(other) ==> err == nil && is(r, *List) && fresh(r.(*List)) && r.(*List) != l
+//@   ensures shape: isSmallInt(other) && repeatOK(len(l.Items), den(other)) ==> err == nil && is(r, *List) && fresh(r.(*List)) && r.(*List) != l
+//@   ensures toolong: isSmallInt(other) && !repeatOK(len(l.Items), den(other)) ==> raisesExc(err, MemoryError)
 //@   ensures src: l.Items == old(l.Items) && (forall k in [0, len(l.Items)): l.Items[k] == old(l.Items[k]))
 //@   ensures nn: err == nil ==> r != nil
 
 //@ func (*List).M__imul__(a, other) (r, err)
 //@   modifies a.Items
-//@   ensures inplace: isSmallInt(other) ==> err == nil && is(r, *List) && r.(*List) == a
+//@   ensures inplace: isSmallInt(other) && repeatOK(len(old(a.Items)), den(other)) ==> err == nil && is(r, *List) && r.(*List) == a
 //@   ensures nn: err == nil ==> r != nil
